@@ -26,8 +26,10 @@ def checkScenario (evs : List Ev) : List String × Nat := Id.run do
       let conns := connsOf evs p
       let cbs := callbacksOf evs p
       let segs := segments cbs
-      let delCall := (evs.find? fun e => e.peer == p && e.ev == "api.call" && e.arg 0 == "DeletePeer").map (·.seq)
-      let delRet := (evs.find? fun e => e.peer == p && e.ev == "api.ret" && e.arg 0 == "DeletePeer").map (·.seq)
+      -- a peer that is deleted and added again is a new instance: DeletePeer-based expectations apply to the first only
+      let readded := evs.any fun e => e.peer == p && e.ev == "api.ret" && e.arg 0 == "AddPeer2" && e.arg 1 == "ok"
+      let delCall := if readded then none else (evs.find? fun e => e.peer == p && e.ev == "api.call" && e.arg 0 == "DeletePeer").map (·.seq)
+      let delRet := if readded then none else (evs.find? fun e => e.peer == p && e.ev == "api.ret" && e.arg 0 == "DeletePeer" && e.arg 1 == "ok").map (·.seq)
       let stopCall := match delCall, closeCall with
         | some a, some b => some (min a b) | some a, none => some a | none, b => b
       let stopRet := match delRet, closeRet with
@@ -64,6 +66,26 @@ def checkScenario (evs : List Ev) : List String × Nat := Id.run do
         match r with
         | some why => fails := fails ++ [s!"{why} [{p}]"]
         | none => pure ()
+      -- C14: every OPEN on the wire is the one configuration and the capabilities GetCapabilities returned call for
+      let expectedOpens : List Bytes := (cbs.filter (·.name == "GetCapabilities")).filterMap fun cb =>
+        match (Term.parse (cb.exitArgs.getD 0 "[]")).bind Dec.caps with
+        | some caps =>
+          let eo := Spec.expectedOpen ⟨cfg.localAS, cfg.localHold, cfg.localID⟩ caps
+          if Spec.Representable eo then some (Spec.frame 1 (Spec.openBody eo)) else none
+        | none => none
+      let mut pool := expectedOpens
+      for c in conns do
+        match (Spec.parseStream c.outbound).1.head? with
+        | some (1, b) =>
+          let w := Spec.frame 1 b
+          if pool.contains w then pool := pool.erase w
+          else fails := fails ++ [s!"C14 the OPEN sent on {c.id} is not what the configuration and the capabilities returned by GetCapabilities for that connection prescribe"]
+        | _ => pure ()
+      -- C20: the registry is a map: a key cannot be deleted twice without being added in between
+      let apiRets := evs.filter fun e => e.peer == p && e.ev == "api.ret" && (e.arg 0 == "DeletePeer" || e.arg 0 == "AddPeer" || e.arg 0 == "AddPeer2") && e.arg 1 == "ok"
+      for (a, b) in apiRets.zip (apiRets.drop 1) do
+        if a.arg 0 == "DeletePeer" && b.arg 0 == "DeletePeer" then
+          fails := fails ++ ["C20 two DeletePeer calls of the same key both succeeded (one must return ErrPeerNotExist)"]
       -- C01: GetCapabilities once per OPEN sent, before it; OnOpenMessage at most once per connection
       let nOpens := (conns.filter fun c => match (Spec.parseStream c.outbound).1.head? with | some (1, _) => true | _ => false).length
       let nGetCaps := (cbs.filter (·.name == "GetCapabilities")).length
